@@ -123,6 +123,20 @@ def axis_scan(model, scope=SCOPE):
                         out.append((fi, n, desc + " (all singleton axes)", bool(tabled), tabled))
                     else:
                         out.append((fi, n, desc + " may move or merge the batch axis", bool(tabled), tabled))
+                elif name in ("unflatten", "unbind", "chunk", "cat", "index_select", "gather", "take", "narrow") \
+                        and fi.name != "step" and (isinstance(f, ast.Attribute)):
+                    # re-batching operations; inside solver steps they are decided at index level (R20.3)
+                    dims = _dims_of(n)
+                    if is_torch_fn and n.args:
+                        dims = _dims_of(ast.Call(func=f, args=n.args[1:], keywords=n.keywords))
+                    desc = f"re-batching operation `{ast.unparse(n)[:60]}`"
+                    if dims and all(d != 0 for d in dims[:1]):
+                        out.append((fi, n, desc, True, f"axis {dims[0]} (not the batch axis)"))
+                    elif name in ("cat",) and isinstance(fi.node, ast.AST) and \
+                            any(k.arg == "dim" for k in n.keywords) is False and len(n.args) < 2:
+                        out.append((fi, n, desc + " along the batch axis (default dim 0)", bool(tabled), tabled))
+                    else:
+                        out.append((fi, n, desc + " on the batch axis", bool(tabled), tabled))
                 elif is_torch_fn and name in ("as_strided", "einsum", "tensordot", "matmul", "mm", "outer", "kron"):
                     out.append((fi, n, f"`{ast.unparse(n)[:60]}` may contract over the batch axis", bool(tabled), tabled))
             if isinstance(n, ast.Subscript) and isinstance(n.ctx, ast.Load):
@@ -177,3 +191,149 @@ def r20_2(ctx):
 def run(ctx):
     ctx.guard(c04.r04_5)
     ctx.guard(r20_2)
+
+
+# ------------------------------------------------------------------------------------------------ R20.3 rows at index level
+def _row_sym(name, b, j):
+    from .. import nf
+    return nf.sym(f"{name}@{b}@{j}", True)
+
+
+def _rows_of(x):
+    """Batch-row indices occurring in an entry (symbols are named <tensor>@<row>@<column...>)."""
+    from .. import nf
+    rows = set()
+    for a in nf.all_atoms(x):
+        if a[0] == "s" and a[1].count("@") >= 2:
+            rows.add(int(a[1].split("@")[1]))
+    return rows
+
+
+def index_step(model, sc, dom, B=3, d=2):
+    """One solver step on index-level tensors: y0 of shape (B, d) with one symbol per entry, a Brownian increment with one
+    symbol per entry, and an SDE that acts row-wise (row r of every output is an opaque function of row r of the inputs).
+    Returns the ST of the new state."""
+    from fractions import Fraction
+    from .. import nf
+    from ..interp import Intrinsic, Obj
+    from ..nf import Rat
+    from . import c17, solverkit
+    ST = c17.ST
+    nt_names = {v: k for k, v in dom.noise_types.items()}
+    nt = nt_names[sc.noise_type]
+    m = d if nt == "diagonal" else (1 if nt == "scalar" else 2)
+
+    def rowwise(name, out_cols):
+        """out[r, *c] = name[c](t, row r of every tensor argument)"""
+        def f(t, *tensors):
+            R = tensors[0].shape[0]
+            data = {}
+            import itertools
+            for r in range(R):
+                key = []
+                for x in tensors:
+                    sub = {ix[1:]: v for ix, v in x.data.items() if ix[0] == r}
+                    key += [sub[k] for k in sorted(sub)]
+                for c in itertools.product(*[range(n) for n in out_cols]):
+                    data[(r,) + c] = nf.fn(f"{name}{list(c)}", t, *key)
+            return ST((R,) + tuple(out_cols), data)
+        return f
+    g_cols = (d,) if nt == "diagonal" else (d, m)
+    F_, G_ = rowwise("F", (d,)), rowwise("G", g_cols)
+
+    def prod(g, v):
+        if nt == "diagonal":
+            return g * v
+        return c17._bmm(g, c17._st_method(v, "unsqueeze", (-1,), {}, ""), "").getitem((slice(None), slice(None), 0))
+    GDG_, DGGA_ = rowwise("GDG", (d,)), rowwise("DGGA", (d,))
+    table = {
+        "f": lambda it, a, k, n, f: F_(a[0], a[1]),
+        "g": lambda it, a, k, n, f: G_(a[0], a[1]),
+        "f_and_g": lambda it, a, k, n, f: (F_(a[0], a[1]), G_(a[0], a[1])),
+        "prod": lambda it, a, k, n, f: prod(a[0], a[1]),
+        "g_prod": lambda it, a, k, n, f: prod(G_(a[0], a[1]), a[2]),
+        "f_and_g_prod": lambda it, a, k, n, f: (F_(a[0], a[1]), prod(G_(a[0], a[1]), a[2])),
+        "g_prod_and_gdg_prod": lambda it, a, k, n, f: (prod(G_(a[0], a[1]), a[2]),
+                                                       GDG_(a[0], a[1], a[3]) if isinstance(a[3], ST) else GDG_(a[0], a[1])),
+        "dg_ga_jvp_column_sum": lambda it, a, k, n, f: DGGA_(a[0], a[1], a[2]),
+    }
+    params = {"f": ["t", "y"], "g": ["t", "y"], "f_and_g": ["t", "y"], "prod": ["g", "v"], "g_prod": ["t", "y", "v"],
+              "f_and_g_prod": ["t", "y", "v"], "g_prod_and_gdg_prod": ["t", "y", "v1", "v2"],
+              "dg_ga_jvp_column_sum": ["t", "y", "a"]}
+    sde = Obj("row-wise-sde", attrs={k: Intrinsic(f"sde.{k}", v, params=params[k]) for k, v in table.items()})
+    sde.attrs["noise_type"], sde.attrs["sde_type"] = sc.noise_type, sc.sde_type
+
+    def sym_tensor(name, shape):
+        import itertools
+        return ST(shape, {ix: _row_sym(name, ix[0], "_".join(map(str, ix[1:]))) for ix in itertools.product(*[range(s) for s in shape])})
+
+    def bm_call(it, obj, args, kwargs, node, fi):
+        a = list(args)
+        ru = a[2] if len(a) > 2 else kwargs.get("return_U", False)
+        ra = a[3] if len(a) > 3 else kwargs.get("return_A", False)
+        out = [sym_tensor("W", (B, m))]
+        if ru:
+            out.append(sym_tensor("U", (B, m)))
+        if ra:
+            out.append(sym_tensor("A", (B, m, m)))
+        return out[0] if len(out) == 1 else tuple(out)
+    bm = Obj("bm", call_hook=bm_call)
+    it = c17._index_interp(model)
+    so = solverkit.solver_obj(model, sc.cls, sde, bm, dict(sc.options))
+    t0, h = nf.sym("t0", True), nf.sym("h", True)
+    y0 = sym_tensor("y0", (B, d))
+    init = model.lookup_method(sc.cls, "init_extra_solver_state")
+    ex = tuple(it.call_function(init, [so, t0, y0], {}) or ())
+    outs = {}
+    for grad_mode in (True, False):
+        it.hooks.grad_mode = grad_mode
+        y1, _ = it.call_function(sc.step_fi, [so, t0, t0 + h, y0, ex], {})
+        outs[grad_mode] = y1
+    return outs, B, d
+
+
+def r20_3(ctx):
+    """Row independence decided on the step bodies themselves: every solver step (all noise types, option variants, with
+    autograd on and off) is evaluated on index-level tensors with three batch rows and a row-wise SDE; entry [b, j] of the
+    new state may mention row b of the inputs only.  Three rows make a mis-paired re-batching (stack two copies along the
+    batch axis, split them the wrong way round) visible, which no lint of single calls can decide."""
+    from . import c17, solvers, steps
+    from ..interp import SimRaise
+    rep, model = ctx.rep, ctx.model
+    rep.rule("R20.3", "every solver step on index-level tensors (3 rows, row-wise SDE, autograd on and off): entry [b, j] of "
+                      "the new state depends on row b of the state and of the Brownian increment only")
+    dom = solvers.Domains(model)
+    n = 0
+    for sc in steps.scenarios(model, dom):
+        construct = f"{sc.step_fi.key}::R20.3::{sc.cls.name}::{sc.noise_type}::{','.join(sorted(k for k, v in sc.options.items() if v))}"
+        try:
+            outs, B, d = index_step(model, sc, dom)
+        except SimRaise as e:
+            raise AnalysisError(f"R20.3: {sc.label}: the step raises {e.exc_name} on index-level tensors: {e.message}",
+                                where=astq.loc(sc.step_fi))
+        rep.analysed(sc.step_fi)
+        bad = []
+        for mode, y1 in outs.items():
+            if not (isinstance(y1, c17.ST) and y1.shape == (B, d)):
+                bad.append(f"autograd {'on' if mode else 'off'}: the new state has shape {getattr(y1, 'shape', None)}, not {(B, d)}")
+                continue
+            for (b, j), v in y1.data.items():
+                others = sorted(_rows_of(v) - {b})
+                if others:
+                    bad.append(f"autograd {'on' if mode else 'off'}: y1[{b}, {j}] depends on row(s) {others} of the inputs")
+                    break
+        n += 1
+        rep.check(not bad, "R20.3", astq.loc(sc.step_fi), construct,
+                  f"{sc.label}: {'; '.join(bad)}: batch rows are not independent (changing another row changes this one)",
+                  "row b of the new state depends on row b only")
+    if n < 30:
+        raise AnalysisError(f"R20.3 evaluated only {n} step scenarios")
+    ctx.floor("R20.3", 30)
+
+
+_run_c20b = run
+
+
+def run(ctx):
+    _run_c20b(ctx)
+    ctx.guard(r20_3)
